@@ -385,6 +385,13 @@ class Unit:
                 m = re.match(r"^(\w+)\s+captures\s+(.*)$", full, re.S)
                 sub = {"name": m.group(1), "captures": m.group(2).strip(), "clauses": [], "invariants": [], "where": where}
                 item["closurefns"][m.group(1)] = sub
+            elif name == "genfn":
+                # @genfn mapconcat <fn path> : `S.iter().map(<fn>).collect()` into a String -> generated loop function
+                kind, target = arg.split()[:2]
+                sub = {"name": target, "kind": kind, "captures": "", "clauses": [], "invariants": [], "where": where}
+                item.setdefault("genfns", {})[target] = sub
+            elif name == "endgenfn":
+                sub = None
             elif name == "endclosurefn":
                 sub = None
             elif name == "ret":
@@ -920,6 +927,12 @@ class Gen:
                 ed.replace(n["s"], arg[0]["s"], "__lossy(", ("rule", "R8-lossy"))
                 ed.replace(arg[0]["e"], n["e"], ")", ("rule", "R8-lossy"))
                 self.fired("R8-lossy")
+            elif n["k"] == "MethodCall" and n["a"]["method"] in ("into", "to_string", "into_owned") and kid(n, "receiver")["k"] == "Call" \
+                    and norm(kid(n, "receiver")["a"]["func"]) == "String::from_utf8_lossy" and len(kids(kid(n, "receiver"), "arg")) == 1:
+                arg0 = kids(kid(n, "receiver"), "arg")[0]
+                ed.replace(n["s"], arg0["s"], "__lossy(", ("rule", "R8-lossy"))
+                ed.replace(arg0["e"], n["e"], ")", ("rule", "R8-lossy"))
+                self.fired("R8-lossy")
             elif n["k"] == "Macro" and n["a"]["mac"] in ("anyhow::bail", "bail"):
                 ed.replace(n["s"], n["e"], "return Err(anyhow::__opaque_error())", ("rule", "R8"))
                 self.fired("R8")
@@ -1063,6 +1076,38 @@ class Gen:
                 if n.get("_handled"):
                     continue
                 rc = kid(n, "receiver")
+                # R26: S.iter().map(<fn path>).collect()  (into a String)  ->  generated concatenation loop
+                if rc["k"] == "MethodCall" and rc["a"]["method"] == "map" and len(kids(rc, "arg")) == 1 and kids(rc, "arg")[0]["k"] == "Path" \
+                        and kids(rc, "arg")[0]["a"]["path"] in it.get("genfns", {}) \
+                        and kid(rc, "receiver")["k"] == "MethodCall" and kid(rc, "receiver")["a"]["method"] == "iter":
+                    fpath = kids(rc, "arg")[0]["a"]["path"]
+                    spec = it["genfns"][fpath]
+                    S = kid(kid(rc, "receiver"), "receiver")
+                    gname = "__map_concat_" + re.sub(r"\W", "_", fpath)
+                    ed.replace(n["s"], S["s"], gname + "(", ("rule", "R26"))
+                    ed.replace(S["e"], n["e"], ")", ("rule", "R26"))
+                    self.fired("R26")
+                    pend = [(f"// R26: generated for `.iter().map({fpath}).collect()` into a String ({src.rel}:{src.line_of(n['s'])}): "
+                             f"String: FromIterator<String> concatenates the pieces in order\nfn {gname}(__s: &[u8]) -> (r: String)\n", ("rule", "R26"))]
+                    for kind in ("requires", "ensures"):
+                        cs = [c for c in spec["clauses"] if c.kind == kind and c.active(self.prop)]
+                        if cs:
+                            pend.append((f"    {kind}\n", ("glue",)))
+                            for c in cs:
+                                self.reg(c)
+                                pend.append(("        " + c.text + ",\n", ("clause", c.id)))
+                    pend.append(("{\n    let mut __out = String::new();\n    for __i in 0..__s.len()\n", ("rule", "R26")))
+                    cs = [c for c in spec["invariants"] if c.active(self.prop)]
+                    if cs:
+                        pend.append(("        invariant\n", ("glue",)))
+                        for c in cs:
+                            self.reg(c)
+                            pend.append(("            " + c.text + ",\n", ("clause", c.id)))
+                    pend.append((f"    {{\n        let __piece = {fpath}(&__s[__i]);\n        let ghost __o = __out@;\n        __out.push_str(__piece.as_str());\n"
+                                 f"        proof {{ assert(__out@ =~= __o + __piece@); assert(__s@.subrange(0, __i + 1).drop_last() =~= __s@.subrange(0, __i as int)); }}\n    }}\n"
+                                 f"    proof {{ assert(__s@.subrange(0, __s@.len() as int) =~= __s@); }}\n    __out\n}}\n", ("rule", "R26")))
+                    self._pending.extend(pend)
+                    continue
                 # R7: A.into_iter().chain(B).collect()  ->  __btree_chain_collect(A, B)
                 if rc["k"] == "MethodCall" and rc["a"]["method"] == "chain" and len(kids(rc, "arg")) == 1 \
                         and kid(rc, "receiver")["k"] == "MethodCall" and kid(rc, "receiver")["a"]["method"] == "into_iter":
@@ -1483,6 +1528,9 @@ class Gen:
             elif it["kind"] == "expr":
                 self.emit_expr(it)
             elif it["kind"] == "fn":
+                only = [o[5:].split(",") for o in it["opts"] if o.startswith("only=")]
+                if only and self.prop is not None and self.prop not in only[0]:
+                    continue
                 self.emit_fn(it)
                 if self.vacuity and not it["external"] and it.get("_implkey") is None:
                     # (methods kept inside a trait impl get no vacuity copy: a trait impl cannot hold extra methods)
